@@ -6,6 +6,7 @@ import (
 	"encoding/json"
 	"fmt"
 	"os"
+	"strings"
 	"testing"
 	"time"
 
@@ -87,6 +88,7 @@ func run(c Case) (fails []failure, inconc string, facts map[string]bool, hist an
 	srv := fake.NewServer()
 	defer srv.Close()
 	fullsync.Register(srv, metas)
+	fullsync.RefuseRestores(c.Cfg, srv, metas)
 	// metas are in file order (grouped by db); index them by (db,key)
 	metaOf := map[string]rdbgen.Meta{}
 	for _, m := range metas {
@@ -126,6 +128,12 @@ func run(c Case) (fails []failure, inconc string, facts map[string]bool, hist an
 		tail = tail[len(tail)-80:]
 	}
 	hist = map[string]any{"send_err": fmt.Sprint(err), "last_requests": tail}
+	if err != nil && c.Cfg.BadFormatEvery > 0 && strings.Contains(err.Error(), "Bad data format") {
+		// the target refused a payload and the tool stopped (the bidirectional path has no native-command fallback): nothing to judge
+		facts["stopped-on-refused-payload"] = true
+		return nil, "", facts, hist
+	}
+	facts["target-refuses-some-payloads"] = c.Cfg.BadFormatEvery > 0
 	if ctx.Err() != nil {
 		return nil, "replay did not finish within 60 s", facts, hist
 	}
